@@ -26,18 +26,30 @@ impl BinRead for EstTable {
         let mut data = vec![0u8; table_size];
         reader.read_exact(&mut data)?;
 
-        // Parse null-terminated strings
+        // Parse null-terminated strings. CFT entries refer to a spec by its
+        // position, and the size of this table determines the width of that
+        // reference, so nothing may be skipped: an empty string, a string that
+        // is not UTF-8 or data after the last terminator is an error (the same
+        // rules as for the ESpec table of an encoding file).
+        let invalid = |message: &str| binrw::Error::AssertFail {
+            pos: 0,
+            message: format!("invalid TVFS encoding spec table: {message}"),
+        };
         let mut specs = Vec::new();
         let mut start = 0;
         for (i, &byte) in data.iter().enumerate() {
             if byte == 0 {
-                if i > start
-                    && let Ok(s) = std::str::from_utf8(&data[start..i])
-                {
-                    specs.push(s.to_string());
+                if i == start {
+                    return Err(invalid("empty encoding spec"));
                 }
+                let s = std::str::from_utf8(&data[start..i])
+                    .map_err(|_| invalid("encoding spec is not valid UTF-8"))?;
+                specs.push(s.to_string());
                 start = i + 1;
             }
+        }
+        if start != data.len() {
+            return Err(invalid("not null-terminated"));
         }
 
         Ok(EstTable { specs })
@@ -89,5 +101,36 @@ impl EstTable {
 impl Default for EstTable {
     fn default() -> Self {
         Self::new()
+    }
+}
+
+#[cfg(test)]
+#[allow(clippy::expect_used, clippy::unwrap_used)]
+mod tests {
+    use super::*;
+    use std::io::Cursor;
+
+    fn read(data: &[u8]) -> BinResult<EstTable> {
+        EstTable::read_options(
+            &mut Cursor::new(data),
+            binrw::Endian::Big,
+            (data.len() as u32,),
+        )
+    }
+
+    #[test]
+    fn test_est_round_trip() {
+        let table = read(b"z\0b:{*=n}\0").expect("Should parse");
+        assert_eq!(table.specs, vec!["z".to_string(), "b:{*=n}".to_string()]);
+        assert_eq!(table.calculate_size(), 10);
+    }
+
+    #[test]
+    fn test_est_rejects_what_it_cannot_write_back() {
+        // Every one of these used to parse with strings silently dropped,
+        // which shifted the index of every later spec
+        assert!(read(b"z\0\0n\0").is_err(), "empty string");
+        assert!(read(b"\xFF\0n\0").is_err(), "not UTF-8");
+        assert!(read(b"z\0n").is_err(), "not null-terminated");
     }
 }
